@@ -11,3 +11,19 @@ package requestid
 //@ use casketfile/contracts_verif.go:dispenser_api
 //@ use @verif/specs/stdlib.spec:stdlib
 //@ use @verif/specs/stdlib.spec:casket_api
+
+//@ unit requestid_handler frames=on props=C12 nilchecks=on filter=`requestid\.Handler\)\.ServeHTTP$`
+//@ // C12: a pass-through middleware - it attaches an identifier to the request context, sends nothing itself, calls the next
+//@ // handler exactly once and returns exactly what that returned
+//@ use @verif/specs/stdlib.spec:handler_chain
+//@ use @verif/specs/stdlib.spec:nethttp_api
+//@ extern github.com/google/uuid.Parse
+//@ extern github.com/google/uuid.New
+//@ extern (github.com/google/uuid.UUID).String
+//@ extern log.Printf
+//@ extern context.WithValue
+//@ extern (*net/http.Request).Context
+//@ func (Handler).ServeHTTP
+//@   requires w != nil && r != nil && r.Header != nil && h.Next != nil
+//@   modifies ghost:nextCalls, ghost:nextRet
+//@   ensures [passes_on_once_returns_its_answer_sends_nothing] nextCalls == old(nextCalls) + 1 && result0 == nextRet && hw == old(hw) && bodyWrites == old(bodyWrites)
